@@ -136,6 +136,30 @@ _c("C09", "exploration",
    "sampled in send sequences.",
    "Maximality is judged for messages waiting in the send queue; resends not yet due are not counted.")
 
+_c("C10", "exploration",
+   "offline checker of the handler event log against a per-client lifecycle automaton; lockstep worlds with seeded client/server/hostile actions, seeded handler exceptions and a replayed token byte source",
+   "lockstep",
+   "The real server loop serves up to 40 client addresses that connect, send, disconnect, go silent and reconnect from the same address while "
+   "connected; the handler disconnects clients from inside connect/message/update and raises (seeded) in every event type; hostile datagrams "
+   "arrive in between; shutdown at a seeded tick; token draws repeat live tokens. Every connect/message/disconnect event is judged: connect "
+   "once with proof of key, only that client's messages, disconnect once, distinct tokens, one thread, flow after exceptions.",
+   "Lockstep alternation makes the event order deterministic; real concurrency on the entry point is covered in C11's free-running mode.")
+_c("C11", "fault_enumeration",
+   "runtime monitors at the socket boundary (per-address byte accounting, block-list, half-open table bound, echo latency of an honest client, loop liveness) under enumerated hostile input classes; free-running mode with real producer threads for queue conservation",
+   "lockstep",
+   "Each tick 1-12 hostile datagrams enter the real datagramReceived: random bytes of every length 0..RECV_SIZE, valid headers with "
+   "garbage/truncated/oversized bodies, hello floods with repeats, undersized hellos, block-listed sources, spoofing from the honest client's "
+   "address, floods by an authenticated rogue client; several block lists and MTUs. A second mode runs the real loop freely against 6 "
+   "producer threads with a 1 us switch interval and checks appended == consumed.",
+   "Echo bound is logical (60 ticks). Free-running verdicts use schedule-independent invariants only.")
+_c("C12", "exploration",
+   "virtual-time timing monitor: emission gaps, status changes, handler disconnect events and callbacks measured per seeded configuration and setter order",
+   "lockstep",
+   "One world per configuration (keep-alive intervals, connection/connect/message timeouts, tick length with jitter, every order of the client "
+   "setters relative to connect, idle up to 10 virtual minutes, link cut at a seeded instant): K1 gap bound, K2 idle survival, K3 detection "
+   "windows on both sides, K4 unanswered connect with and without callback, K5 setters return and take effect.",
+   "Timing slack: one tick (K1), two ticks (K3/K4). 'Indefinitely' is explored up to 10 virtual minutes.")
+
 NOT_YET = {}
 
 
